@@ -11,8 +11,8 @@ mod methods {
         arg
     }
 
-    fn int(arg: u64) -> i64 {
-        arg as i64
+    fn int(arg: u64) -> CelResult<i64> {
+        i64::try_from(arg).map_err(|_| CelError::value("uint value out of range for int"))
     }
 
     fn int(arg: f64) -> i64 {
